@@ -215,6 +215,81 @@ def _api():
     return F_, M_
 
 
+# ----------------------------------------------------------------------------------------
+# robustness variants ("alts" of a case): the same logical call through another entry point, with
+# another memory layout / integer dtype, repeated on the same objects, element by element.  The
+# property makes the result a function of the logical input only, so every variant must reproduce
+# the canonical call's output (bit for bit unless stated) and leave the caller's tensors untouched.
+# ----------------------------------------------------------------------------------------
+_SCRIPTED = {}
+LAYOUTS = ["tr", "off", "step", "expand"]
+
+
+def scripted(key, make):
+    if key not in _SCRIPTED:
+        _SCRIPTED[key] = torch.jit.script(make())
+    return _SCRIPTED[key]
+
+
+def relayout(x, how):
+    """the same logical tensor with another memory layout (junk in the cells that are skipped)"""
+    if x is None or x.dim() == 0:
+        return x
+    junk = float("nan") if x.is_floating_point() else 7777
+    if how == "expand":
+        if x.shape[0] > 1 and bool(((x == x[:1]) | ((x != x) & (x[:1] != x[:1]))).all()):
+            return x[:1].expand(x.shape)
+        how = "step"
+    if how == "tr" and x.dim() >= 2:
+        return x.transpose(0, -1).contiguous().transpose(0, -1)
+    if how == "step" or how == "tr":
+        buf = torch.full(tuple(x.shape[:-1]) + (2 * x.shape[-1] + 1,), junk, dtype=x.dtype)
+        buf[..., 1::2] = x
+        return buf[..., 1::2]
+    buf = torch.full((x.numel() + 3,), junk, dtype=x.dtype)
+    buf[2:2 + x.numel()] = x.reshape(-1)
+    return buf[2:2 + x.numel()].view(x.shape)
+
+
+def same_bits(a, b):
+    if a is None or b is None:
+        return a is None and b is None
+    if a.dtype != b.dtype or tuple(a.shape) != tuple(b.shape):
+        return False
+    if a.dtype == torch.float32:
+        return bool((a.contiguous().view(torch.int32) == b.contiguous().view(torch.int32)).all())
+    if a.is_floating_point():
+        return bool((((a == b) & (torch.signbit(a) == torch.signbit(b))) | (a.isnan() & b.isnan())).all())
+    return bool((a == b).all())
+
+
+def snapshot(tensors):
+    return [None if t is None else t.clone() for t in tensors]
+
+
+def unchanged(tensors, snap):
+    return all(same_bits(t, s) for t, s in zip(tensors, snap))
+
+
+def close_rows(a, b):
+    """warped rows computed alone / in a batch: the batched 3-knot solve may round differently"""
+    if tuple(a.shape) != tuple(b.shape):
+        return False
+    fin = torch.isfinite(a) & torch.isfinite(b)
+    if not bool((fin | same_nonfinite(a, b)).all()):
+        return False
+    d = (a[fin].double() - b[fin].double()).abs()
+    return bool((d <= 2e-3 * (1 + b[fin].double().abs())).all())
+
+
+def same_nonfinite(a, b):
+    return (a.isnan() & b.isnan()) | ((a == b) & ~torch.isfinite(a))
+
+
+def int_or_none(xs):
+    return xs is not None and all(float(x) == int(x) for x in xs)
+
+
 def _draw(case, feats, lengths, fr):
     F_, M_ = _api()
     with mock.patch.object(torch, "rand", fr):
@@ -273,6 +348,62 @@ def nregime(feats, out, masked_possible):
     return bad
 
 
+def pipe_call(case, how, feats, lengths, training):
+    """the whole call under the case's variates, through entry point `how`"""
+    F_, M_ = _api()
+    c, order = case["cfg"], case.get("order", 1)
+    calls = expected_calls(case) if training else []
+    fr = FakeRand(calls)
+    with mock.patch.object(torch, "rand", fr):
+        if how in ("module", "module_kw", "module_twice"):
+            sa = M_.SpecAugment(*cfg_args(c), interpolation_order=order)
+            sa.train(training)
+            if how == "module_twice":
+                # another use of the same object in between: different T and F, all lengths 1
+                sa(torch.ones(case["N"], case["T"] + 1, case["F"] + 2), None if lengths is None else torch.ones(case["N"], dtype=torch.long))
+                fr.i = 0
+            out = sa(feats=feats, lengths=lengths) if how == "module_kw" else sa(feats, lengths)
+        elif how == "kw":
+            out = F_.spec_augment(feats=feats, max_time_warp=c["Wt"], max_freq_warp=c["Wf"], max_time_mask=c["Mt"], max_freq_mask=c["Mf"],
+                                  max_time_mask_proportion=c["pt"], num_time_mask=c["nt"], num_time_mask_proportion=c["npt"],
+                                  num_freq_mask=c["nf"], interpolation_order=order, lengths=lengths, training=training)
+        else:
+            out = F_.spec_augment(feats, *cfg_args(c), order, lengths, training)
+    if not fr.done():
+        raise RandProtocol("the call drew fewer variates than draw_parameters")
+    return out
+
+
+PIPE_ALTS = ["functional", "module", "module_kw", "module_twice", "kw", "tr", "off", "step", "expand", "lens32", "lens_explicit", "lens_view"]
+
+
+def pipe_alts(case, feats, lengths, out, training):
+    bad = []
+    for a in case.get("alts") or []:
+        how, f2, l2 = case["api"], feats, lengths
+        try:
+            if a in ("functional", "module", "module_kw", "module_twice", "kw"):
+                how = a
+            elif a in LAYOUTS:
+                f2 = relayout(feats, a)
+            elif a == "lens32" and lengths is not None:
+                l2 = lengths.int()
+            elif a == "lens_view" and lengths is not None:
+                l2 = relayout(lengths, "step")
+            elif a == "lens_explicit" and lengths is None:
+                l2 = torch.full((case["N"],), case["T"], dtype=torch.long)
+            elif a == "lens_explicit" and all(x == case["T"] for x in case["lengths"]):
+                l2 = None
+            else:
+                continue
+            o = pipe_call(case, how, f2, l2, training)
+            if not (same_bits(o, out) if training else (tuple(o.shape) == tuple(out.shape) and same_bits(o.contiguous(), out.contiguous()))):
+                bad.append(f"rel:same_result[{a}]")
+        except Exception as e:
+            bad.append(f"rel:raises[{a}]:" + exc_kind(e))
+    return bad
+
+
 def run_pipe(case):
     """draw, then the whole call and apply(draw) under the same variates"""
     F_, M_ = _api()
@@ -282,19 +413,11 @@ def run_pipe(case):
     order = case.get("order", 1)
     training = case.get("training", True)
     c = case["cfg"]
+    snap = snapshot([feats, lengths])
     try:
         out2 = (M_.SpecAugment(*cfg_args(c), interpolation_order=order).apply_parameters(feats, p, lengths)
                 if case["api"] == "module" else F_.spec_augment_apply_parameters(feats, p, order, lengths))
-        fr = FakeRand(expected_calls(case) if training else [])
-        with mock.patch.object(torch, "rand", fr):
-            if case["api"] == "module":
-                sa = M_.SpecAugment(*cfg_args(c), interpolation_order=order)
-                sa.train(training)
-                out = sa(feats, lengths)
-            else:
-                out = F_.spec_augment(feats, *cfg_args(c), order, lengths, training)
-        if not fr.done():
-            return {"err": "rand-protocol: the call drew fewer variates than draw_parameters"}
+        out = pipe_call(case, case["api"], feats, lengths, training)
     except RandProtocol as e:
         return {"err": "rand-protocol: " + str(e)}
     except Exception as e:
@@ -302,10 +425,13 @@ def run_pipe(case):
         res["exc_in"] = "apply"
         return res
     res["spec_fail"] = []
+    if not unchanged([feats, lengths], snap):
+        res["spec_fail"].append("rel:inputs_unchanged")
     if not training:
         if not (out is feats or (out.shape == feats.shape and feats_equal(out, feats))):
             res["spec_fail"].append("eval_mode_identity")
         res["eval"] = True
+        res["spec_fail"] += pipe_alts(case, feats, lengths, feats, training)
         return res
     if tuple(out.shape) != tuple(feats.shape):
         res["spec_fail"].append("shape_preserved")
@@ -315,10 +441,8 @@ def run_pipe(case):
     warped = any(e["tw"] is not None or e["fw"] is not None for e in res["params"])
     res["warped"] = warped
     if warped:
-        res["spec_fail"] += nregime(feats, out, any(e["tm"] or e["fm"] for e in res["params"]))
-        if not masked_cells_zero(out, [(e["tm"], e["fm"]) for e in res["params"]]):
-            res["spec_fail"].append("apply_zeroes_exactly_masked")
-        res["out"] = [[[Fraction(x) for x in r] for r in img] for img in out.double().tolist()]
+        police_warp(res, case, feats, out, [(e["tm"], e["fm"]) for e in res["params"]],
+                    any(e["tm"] or e["fm"] for e in res["params"]))
         lens = lens_of(case)
         try:
             add_grids(res, F_, case["T"], case["F"], lens, order)
@@ -329,6 +453,7 @@ def run_pipe(case):
         res["outbits"] = feats_to_bits(out) if out.dtype == torch.float32 else None
         if res["outbits"] is None:
             res["out"] = [[[Fraction(x) for x in r] for r in img] for img in out.double().tolist()]
+    res["spec_fail"] += pipe_alts(case, feats, lengths, out, training)
     return res
 
 
@@ -359,6 +484,100 @@ def tens_param(spec, N):
     return torch.tensor(spec)
 
 
+def apply_call(how, feats, p, order, lengths):
+    F_, M_ = _api()
+    if how == "module":
+        return M_.SpecAugment(interpolation_order=order).apply_parameters(feats, p, lengths)
+    if how == "module_kw":
+        return M_.SpecAugment(interpolation_order=order).apply_parameters(feats=feats, params=p, lengths=lengths)
+    if how == "kw":
+        return F_.spec_augment_apply_parameters(feats=feats, params=p, interpolation_order=order, lengths=lengths)
+    if how == "script_fn":
+        return scripted("apply_fn", lambda: F_.spec_augment_apply_parameters)(feats, p, order, lengths)
+    return F_.spec_augment_apply_parameters(feats, p, order, lengths)
+
+
+APPLY_ALTS = ["functional", "module", "module_kw", "kw", "script_fn", "tr", "off", "step", "expand", "param_views", "lens32", "lens_explicit",
+              "twice", "alias", "alone", "f64", "f16"]
+
+
+def apply_alts(case, feats, p, lengths, out, warped, ill):
+    """-> failing relation names (see the block comment above relayout)"""
+    bad = []
+    N, T, order = case["N"], case["T"], case.get("order", 1)
+    for a in case.get("alts") or []:
+        how, f2, p2, l2, cmp, ref = case["api"], feats, p, lengths, same_bits, out
+        try:
+            if a in ("functional", "module", "module_kw", "kw", "script_fn"):
+                how = a
+            elif a in LAYOUTS:
+                f2 = relayout(feats, a)
+            elif a == "param_views":
+                p2 = tuple(relayout(t, "step") for t in p)
+                l2 = relayout(lengths, "off")
+            elif a == "lens32":
+                if lengths is None:
+                    continue
+                l2 = lengths.int()
+            elif a == "lens_explicit":
+                if lengths is None:
+                    l2 = torch.full((N,), T, dtype=torch.long)
+                elif all(x == T for x in case["lengths"]):
+                    l2 = None
+                else:
+                    continue
+            elif a == "alias":
+                q = list(p)
+                for i, j in ((0, 1), (2, 3), (4, 5), (6, 7)):
+                    if q[i] is not None and q[j] is not None and q[i].dtype == q[j].dtype and q[i].shape == q[j].shape \
+                            and bool((q[i] == q[j]).all()):
+                        q[j] = q[i]
+                p2 = tuple(q)
+            elif a == "twice":
+                snap = snapshot([feats, lengths] + list(p))
+                apply_call(how, feats, p, order, lengths)
+                if not unchanged([feats, lengths] + list(p), snap):
+                    bad.append("rel:inputs_unchanged[twice]")
+            elif a == "alone":
+                if warped and ill:
+                    continue
+                rows = []
+                for n in range(N):
+                    pn = tuple(t if (t is None or t.numel() == 0 or t.shape[0] != N) else t[n:n + 1] for t in p)
+                    rows.append(apply_call(how, feats[n:n + 1], pn, order, None if lengths is None else lengths[n:n + 1]))
+                o = torch.cat(rows)
+                if not (close_rows(o, out) if warped else same_bits(o, out)):
+                    bad.append("rel:batch_element_independent")
+                continue
+            elif a in ("f64", "f16"):
+                if warped:
+                    continue
+                D = torch.float64 if a == "f64" else torch.float16
+                f2 = feats.to(D)
+                ref = apply_call(how, f2.float(), p, order, lengths).to(D)
+            else:
+                continue
+            o = apply_call(how, f2, p2, order, l2)
+            if not cmp(o, ref):
+                bad.append(f"rel:same_result[{a}]")
+        except Exception as e:
+            bad.append(f"rel:raises[{a}]:" + exc_kind(e))
+    return bad
+
+
+def police_warp(res, case, feats, out, bands, masked_possible=True):
+    """python-level clauses on a warped output; model comparison data unless the case is police-only"""
+    finite_in = bool(torch.isfinite(feats).all())
+    if finite_in:
+        res["spec_fail"] += nregime(feats, out, masked_possible)
+    if not masked_cells_zero(out, bands):
+        res["spec_fail"].append("apply_zeroes_exactly_masked")
+    if finite_in and not case.get("police_only"):
+        res["out"] = [[[Fraction(x) for x in r] for r in img] for img in out.double().tolist()]
+    else:
+        res["police_only"] = True
+
+
 def run_apply(case):
     """explicit parameters -> spec_augment_apply_parameters (kinds mask, warp)"""
     F_, M_ = _api()
@@ -373,32 +592,43 @@ def run_apply(case):
          tens_param(P["t0"], N), tens_param(P["t"], N), tens_param(P["f0"], N), tens_param(P["f"], N))
     order = case.get("order", 1)
     res = {"spec_fail": []}
+    snap = snapshot([feats, lengths] + list(p))
     try:
-        if case["api"] == "module":
-            out = M_.SpecAugment(interpolation_order=order).apply_parameters(feats, p, lengths)
-        else:
-            out = F_.spec_augment_apply_parameters(feats, p, order, lengths)
+        out = apply_call(case["api"], feats, p, order, lengths)
     except Exception as e:
         return {"err": "exc:" + exc_kind(e) + ":" + str(e)[:120], "exc_in": "apply"}
+    if not unchanged([feats, lengths] + list(p), snap):
+        res["spec_fail"].append("rel:inputs_unchanged")
     if tuple(out.shape) != tuple(feats.shape) or out.dtype != feats.dtype:
         res["spec_fail"].append("shape_preserved")
         return res
     tw = usable(P["w0"]) and usable(P["w"])
     fw = usable(P["v0"]) and usable(P["v"])
     res["warped"] = tw or fw
+    lens = lens_of(case)
+    ill = (tw and any(margin_px(fq(P["w0"][n]), fq(P["w"][n]), lens[n]) < GRID_MARGIN for n in range(N))) or \
+          (fw and any(margin_px(fq(P["v0"][n]), fq(P["v"][n]), case["F"]) < GRID_MARGIN for n in range(N)))
     if res["warped"]:
-        res["spec_fail"] += nregime(feats, out, True)
-        if not masked_cells_zero(out, [(bands_of(P, "t0", "t", n), bands_of(P, "f0", "f", n)) for n in range(N)]):
-            res["spec_fail"].append("apply_zeroes_exactly_masked")
-        res["out"] = [[[Fraction(x) for x in r] for r in img] for img in out.double().tolist()]
-        lens = lens_of(case)
+        bands = [(bands_of(P, "t0", "t", n), bands_of(P, "f0", "f", n)) for n in range(N)]
+        police_warp(res, case, feats, out, bands)
+        if not bool(torch.isfinite(feats).all()):
+            res["spec_fail"] += nonfinite_relation(case, feats, p, order, lengths, out)
         res["tgrid"] = ref_grid(F_, P["w0"], P["w"], lens, case["T"], order) if tw else None
         res["fgrid"] = ref_grid(F_, P["v0"], P["v"], [case["F"]] * N, case["F"], order) if fw else None
     elif out.dtype == torch.float32:
         res["outbits"] = feats_to_bits(out)
     else:
         res["out"] = [[[Fraction(x) for x in r] for r in img] for img in out.double().tolist()]
+    res["spec_fail"] += apply_alts(case, feats, p, lengths, out, res["warped"], ill)
     return res
+
+
+def nonfinite_relation(case, feats, p, order, lengths, out):
+    """a finite output cell saw finite corners only: it equals the cell of the run with the non-finite cells zeroed"""
+    f0 = torch.where(torch.isfinite(feats), feats, torch.zeros_like(feats))
+    o0 = apply_call(case["api"], f0, p, order, lengths)
+    fin = torch.isfinite(out)
+    return [] if bool((out[fin] == o0[fin]).all()) else ["rel:finite_cells_ignore_nonfinite_cells"]
 
 
 def usable(x):
@@ -411,20 +641,82 @@ def bands_of(P, key0, key, n):
     return [[a, b] for a, b in zip(P[key0][n], P[key][n])]
 
 
+GRID_ALTS = ["module", "module_kw", "script_mod", "script_fn", "kw", "ints", "lens_long", "views", "expand", "twice"]
+
+
+def grid_call(how, src, flow, lengths, maxlen, order):
+    F_, M_ = _api()
+    if how in ("module", "module_kw", "script_mod", "twice"):
+        m = M_.Warp1DGrid(maxlen, order)
+        if how == "script_mod":
+            m = scripted(("w1d", maxlen, order), lambda: m)
+        if how == "twice":
+            m(torch.zeros(2), torch.zeros(2), torch.tensor([1.0, 3.0]))
+        return m(src=src, flow=flow, lengths=lengths) if how == "module_kw" else m(src, flow, lengths)
+    if how == "script_fn":
+        return scripted("w1d_fn", lambda: F_.warp_1d_grid)(src, flow, lengths, maxlen, order)
+    if how == "kw":
+        return F_.warp_1d_grid(src=src, flow=flow, lengths=lengths, max_length=maxlen, interpolation_order=order)
+    return F_.warp_1d_grid(src, flow, lengths, maxlen, order)
+
+
 def run_grid(case):
-    F_, _ = _api()
+    src = torch.tensor([float(x) for x in case["src"]])
+    flow = torch.tensor([float(x) for x in case["flow"]])
+    lengths = torch.tensor([float(x) for x in case["lengths"]])
+    maxlen, order = case["T"] if case.get("maxlen", True) else None, case.get("order", 1)
+    snap = snapshot([src, flow, lengths])
     try:
-        g = F_.warp_1d_grid(torch.tensor([float(x) for x in case["src"]]), torch.tensor([float(x) for x in case["flow"]]),
-                            torch.tensor([float(x) for x in case["lengths"]]),
-                            case["T"] if case.get("maxlen", True) else None, case.get("order", 1))
+        g = grid_call("functional", src, flow, lengths, maxlen, order)
     except Exception as e:
         return {"err": "exc:" + exc_kind(e) + ":" + str(e)[:120], "exc_in": "warp_1d_grid"}
     Texp = case["T"] if case.get("maxlen", True) else max(case["lengths"])
     if tuple(g.shape) != (len(case["src"]), Texp):
         return {"err": f"grid shape {tuple(g.shape)}"}
+    bad = [] if unchanged([src, flow, lengths], snap) else ["rel:inputs_unchanged"]
+    for a in case.get("alts") or []:
+        how, s2, f2, l2 = "functional", src, flow, lengths
+        try:
+            if a in ("module", "module_kw", "script_mod", "script_fn", "kw", "twice"):
+                how = a
+            elif a == "ints" and int_or_none(case["src"]) and int_or_none(case["flow"]):
+                s2, f2, l2 = src.long(), flow.long(), lengths.long()
+            elif a == "lens_long":
+                l2 = lengths.long()
+            elif a == "views":
+                s2, f2, l2 = relayout(src, "step"), relayout(flow, "off"), relayout(lengths, "step")
+            elif a == "expand":
+                s2, f2, l2 = relayout(src, "expand"), relayout(flow, "expand"), relayout(lengths, "expand")
+            else:
+                continue
+            if not same_bits(grid_call(how, s2, f2, l2, maxlen, order), g):
+                bad.append(f"rel:same_result[{a}]")
+        except Exception as e:
+            bad.append(f"rel:raises[{a}]:" + exc_kind(e))
     if not bool(torch.isfinite(g).all()):
-        return {"grid": None, "spec_fail": ["warp_finite"]}
-    return {"grid": [[Fraction(x) for x in row] for row in g.double().tolist()], "spec_fail": []}
+        return {"grid": None, "spec_fail": ["warp_finite"] + bad}
+    return {"grid": [[Fraction(x) for x in row] for row in g.double().tolist()], "spec_fail": bad}
+
+
+SEED_ALTS = ["script_mod", "script_fn", "script_eval", "functional", "module", "module_again", "tr", "step", "lens32"]
+
+
+def seed_call(case, how, feats, lengths, sa):
+    F_, M_ = _api()
+    c, order = case["cfg"], case.get("order", 1)
+    if how == "script_mod":
+        m = scripted(("sa",) + tuple(cfg_args(c)) + (order,), lambda: M_.SpecAugment(*cfg_args(c), interpolation_order=order))
+        m.train()
+    elif how == "script_fn":
+        m = scripted("sa_fn", lambda: F_.spec_augment)
+    torch.manual_seed(case["seed"])
+    if how == "script_mod":
+        return m(feats, lengths)
+    if how == "script_fn":
+        return m(feats, *cfg_args(c), order, lengths, True)
+    if how in ("module", "module_again"):
+        return sa(feats, lengths)
+    return F_.spec_augment(feats, *cfg_args(c), order, lengths, True)
 
 
 def run_seed(case):
@@ -437,15 +729,17 @@ def run_seed(case):
     sa = M_.SpecAugment(*cfg_args(c), interpolation_order=order)
     sa.train()
     res = {"spec_fail": []}
+    snap = snapshot([feats, lengths])
     try:
         torch.manual_seed(case["seed"])
         p = sa.draw_parameters(feats, lengths)
         out2 = sa.apply_parameters(feats, p, lengths)
-        torch.manual_seed(case["seed"])
-        out = sa(feats, lengths) if case["api"] == "module" else F_.spec_augment(feats, *cfg_args(c), order, lengths, True)
+        out = seed_call(case, case["api"], feats, lengths, sa)
         res["params"] = canon_params(p, case["N"])
     except Exception as e:
         return {"err": "exc:" + exc_kind(e) + ":" + str(e)[:120], "exc_in": "seed"}
+    if not unchanged([feats, lengths], snap):
+        res["spec_fail"].append("rel:inputs_unchanged")
     if tuple(out.shape) != tuple(feats.shape):
         res["spec_fail"].append("shape_preserved")
         return res
@@ -453,10 +747,7 @@ def run_seed(case):
         res["spec_fail"].append("call_equals_apply_of_draw")
     res["warped"] = any(e["tw"] is not None or e["fw"] is not None for e in res["params"])
     if res["warped"]:
-        res["spec_fail"] += nregime(feats, out, True)
-        if not masked_cells_zero(out, [(e["tm"], e["fm"]) for e in res["params"]]):
-            res["spec_fail"].append("apply_zeroes_exactly_masked")
-        res["out"] = [[[Fraction(x) for x in r] for r in img] for img in out.double().tolist()]
+        police_warp(res, case, feats, out, [(e["tm"], e["fm"]) for e in res["params"]])
         try:
             add_grids(res, F_, case["T"], case["F"], lens_of(case), order)
         except Exception as e:
@@ -464,6 +755,29 @@ def run_seed(case):
             res["exc_in"] = "warp_1d_grid"
     else:
         res["outbits"] = feats_to_bits(out)
+    for a in case.get("alts") or []:
+        how, f2, l2 = case["api"], feats, lengths
+        try:
+            if a == "script_eval":
+                m = scripted(("sa",) + tuple(cfg_args(c)) + (order,), lambda: M_.SpecAugment(*cfg_args(c), interpolation_order=order))
+                m.eval()
+                o = m(feats, lengths)
+                m.train()
+                if not same_bits(o, feats):
+                    res["spec_fail"].append("eval_mode_identity[scripted]")
+                continue
+            if a in ("script_mod", "script_fn", "functional", "module", "module_again"):
+                how = a
+            elif a in ("tr", "step"):
+                f2 = relayout(feats, a)
+            elif a == "lens32" and lengths is not None:
+                l2 = lengths.int()
+            else:
+                continue
+            if not same_bits(seed_call(case, how, f2, l2, sa), out):
+                res["spec_fail"].append(f"rel:same_result[{a}]")
+        except Exception as e:
+            res["spec_fail"].append(f"rel:raises[{a}]:" + exc_kind(e))
     return res
 
 
@@ -586,7 +900,8 @@ def case_terms(case, res):
             terms.append(("model", "no-exception", "false", {"err": res["err"]}))
         else:
             pe = lambda n: res["params"][n]
-            terms += out_terms(case, res, pe)
+            if "out" in res or "outbits" in res:
+                terms += out_terms(case, res, pe)
             if res.get("warped"):
                 terms += linear_terms(case, res, pe, case.get("order", 1))
     elif k in ("mask", "warp"):
@@ -696,15 +1011,31 @@ def gen_draw(rng, big=False):
             "u": gen_u(rng, N, cfg["nt"], cfg["nf"], "adv"), "stream": "draw-big" if big else "draw"}
 
 
-SPECIAL_BITS = [0, -2147483648, 2139095040, -8388608, 2143289344, 1065353216, -1082130432, 1, 8388608]
+SPECIAL_BITS = [0, -2147483648, 2139095040, -8388608, 2143289344, 1065353216, -1082130432, 1, 8388608,
+                2139095039, -8388609, 1900671690, -246811958]   # ... +-max, +-1e30
+NONFINITE_BITS = [2139095040, -8388608, -8388608, -8388608, 2143289344]   # log energies of silent frames: mostly -inf
 
 
-def gen_bits(rng, N, T, Fd):
+def gen_bits(rng, N, T, Fd, nonfinite=None):
+    """nonfinite = share of cells that are -inf / inf / nan (None: the generic mix of special patterns)"""
     def one():
+        if nonfinite is not None:
+            return rng.choice(NONFINITE_BITS) if rng.random() < nonfinite else float_bits(rng.randint(-8, 8))
         if rng.random() < 0.25:
             return rng.choice(SPECIAL_BITS)
         return float_bits(rng.randint(-40, 40) / 4.0)
     return [[[one() for _ in range(Fd)] for _ in range(T)] for _ in range(N)]
+
+
+def pick_alts(rng, pool, k=2):
+    return rng.sample(pool, min(k, len(pool)))
+
+
+def same_rows(rng, case, p=0.12):
+    """now and then every batch element carries the same features (an `expand`ed batch is then legal)"""
+    for key in ("bits", "cells"):
+        if case.get(key) is not None and rng.random() < p:
+            case[key] = [case[key][0] for _ in case[key]]
 
 
 def float_bits(x):
@@ -730,10 +1061,25 @@ def gen_pipe(rng, warp):
             "stream": "pipe-warp" if warp else "pipe-mask"}
     if warp:
         case["cells"] = gen_cells(rng, N, T, Fd)
-        if rng.random() < 0.3:  # a ramp in time: the output reads off the sampled position
+        c = rng.random()
+        if c < 0.3:  # a ramp in time: the output reads off the sampled position
             case["cells"] = [[[t for _ in range(Fd)] for t in range(T)] for _ in range(N)]
+        elif c < 0.45:  # silent frames / dead coefficients: masked cells are 0 whatever they held (police only)
+            del case["cells"]
+            case["bits"] = gen_bits(rng, N, T, Fd, nonfinite=rng.choice([0.15, 0.5, 1.0]))
+            case["police_only"] = True
+        if cfg["Wt"] and T >= 4 and rng.random() < 0.2:
+            # left shift of a source close to frame 0 onto a destination still closer to it
+            cfg["Wt"] = rng.choice([3.0, 2.75, 1.0])
+            case["lengths"] = [T] * N if rng.random() < 0.5 else None
+            case["u"]["w0"] = [rng.randrange(0, U24 // 8) for _ in range(N)]
+            case["u"]["w"] = [rng.randrange(U24 // 50, U24 // 6) for _ in range(N)]
+            case["order"] = 1
     else:
-        case["bits"] = gen_bits(rng, N, T, Fd)
+        r = rng.random()
+        case["bits"] = gen_bits(rng, N, T, Fd, nonfinite=None if r < 0.7 else rng.choice([0.3, 0.6, 1.0]))
+    same_rows(rng, case)
+    case["alts"] = pick_alts(rng, PIPE_ALTS, 2)
     return case
 
 
@@ -763,11 +1109,22 @@ def gen_mask(rng):
             "lengths": gen_lengths(rng, N, T), "order": rng.choice([1, 2]),
             "params": {"w0": rng.choice([None, "empty"]), "w": rng.choice([None, "empty"]), "v0": None, "v": rng.choice([None, "empty"]),
                        "t0": t0, "t": t, "f0": f0, "f": f}, "stream": "mask"}
-    if rng.random() < 0.85:
-        case["bits"] = gen_bits(rng, N, T, Fd)
+    r = rng.random()
+    if r < 0.85:
+        case["bits"] = gen_bits(rng, N, T, Fd, nonfinite=None if r < 0.6 else rng.choice([0.3, 0.6, 1.0]))
     else:
         case["cells"] = gen_cells(rng, N, T, Fd)
         case["dtype"] = "f64"
+    if rng.random() < 0.1 and isinstance(t0, list) and isinstance(t, list):
+        case["params"]["t"] = json.loads(json.dumps(t0))
+        case["alts"] = ["alias"]
+    elif rng.random() < 0.1 and isinstance(f0, list) and isinstance(f, list):
+        case["params"]["f"] = json.loads(json.dumps(f0))
+        case["alts"] = ["alias"]
+    else:
+        case["alts"] = []
+    same_rows(rng, case)
+    case["alts"] += pick_alts(rng, [a for a in APPLY_ALTS if a != "alias" and ("bits" in case or a not in ("f64", "f16"))], 2)
     return case
 
 
@@ -775,12 +1132,20 @@ def f32(x):
     return torch.tensor(x, dtype=torch.float32).item()
 
 
-def gen_warpvals(rng, N, lens, near_end=False):
+def gen_warpvals(rng, N, lens, near_end=False, left_small=False):
     w0, w = [], []
     for n in range(N):
         ln = lens[n]
         s = f32(rng.choice([rng.uniform(0, ln), rng.uniform(0, ln), rng.randint(0, ln), rng.uniform(-1, ln + 1)]))
-        if near_end:
+        if left_small and ln >= 3:
+            # a source within the first frames moved left onto a destination closer still to frame 0
+            s = f32(rng.uniform(0.3, min(2.5, ln - 1.2)))
+            d = rng.uniform(0.02, s / 2)
+        elif left_small and ln >= 2 and rng.random() < 0.5:
+            # mirrored: a source near the last valid frame moved right
+            s = f32(rng.uniform(0.05, ln - 1.05))
+            d = rng.uniform((s + ln - 1) / 2, ln - 1.02)
+        elif near_end:
             d = rng.choice([0.0, ln - 1.0, -0.5, ln - 0.5, 10 ** rng.uniform(-7, -4), ln - 1 - 10 ** rng.uniform(-7, -4)])
         else:
             d = rng.uniform(0.02, max(ln - 1 - 0.02, 0.02)) if rng.random() < 0.8 else rng.uniform(-1, ln)
@@ -790,42 +1155,83 @@ def gen_warpvals(rng, N, lens, near_end=False):
     return w0, w
 
 
-def gen_warp(rng, near_end=False):
+def gen_warp(rng, near_end=False, left_small=False, hard=False):
     N, T, Fd = rng.randint(1, 2), rng.randint(1, 7), rng.randint(1, 5)
-    lens = [rng.choice([T, rng.randint(1, T)]) for _ in range(N)]
-    which = rng.choice(["t", "t", "f", "tf"])
+    if left_small:
+        T = rng.randint(3, 8)
+    lens = [rng.choice([T, rng.randint(3 if left_small else 1, T)]) for _ in range(N)]
+    which = rng.choice(["t", "t", "f", "tf"]) if not left_small else "t"
     w0 = w = v0 = v = None
     if "t" in which:
-        w0, w = gen_warpvals(rng, N, lens, near_end)
+        w0, w = gen_warpvals(rng, N, lens, near_end, left_small)
     if "f" in which:
         v0, v = gen_warpvals(rng, N, [Fd] * N, near_end)
-    t0, t = gen_maskparam(rng, N, T) if rng.random() < 0.5 else (None, None)
-    f0, f = gen_maskparam(rng, N, Fd) if rng.random() < 0.4 else (None, None)
+    t0, t = gen_maskparam(rng, N, T) if rng.random() < (0.9 if hard else 0.5) else (None, None)
+    f0, f = gen_maskparam(rng, N, Fd) if rng.random() < (0.7 if hard else 0.4) else (None, None)
     cells = gen_cells(rng, N, T, Fd)
-    if rng.random() < 0.3:
+    c = rng.random()
+    if c < (0.6 if left_small else 0.3):
         cells = [[[tt for _ in range(Fd)] for tt in range(T)] for _ in range(N)]
-    return {"kind": "warp", "api": rng.choice(["functional", "module"]), "N": N, "T": T, "F": Fd,
-            "lengths": lens if rng.random() < 0.9 or any(x != T for x in lens) else None, "order": rng.choice([1, 1, 2, 3]),
+    elif c < 0.75 and left_small:
+        cells = [[[tt * tt - 3 for _ in range(Fd)] for tt in range(T)] for _ in range(N)]
+    elif c < 0.4:   # a common offset: a resampling that cancels badly would leave the tolerance
+        cells = [[[1000 + x for x in r] for r in img] for img in cells]
+    case = {"kind": "warp", "api": rng.choice(["functional", "module"]), "N": N, "T": T, "F": Fd,
+            "lengths": lens if rng.random() < 0.9 or any(x != T for x in lens) else None, "order": rng.choice([1, 1, 2, 3]) if not left_small else 1,
             "cells": cells, "params": {"w0": w0, "w": w, "v0": v0, "v": v, "t0": t0, "t": t, "f0": f0, "f": f},
-            "stream": "warp-near-end" if near_end else "warp"}
+            "stream": "warp-near-end" if near_end else ("warp-left-small" if left_small else ("warp-hard-values" if hard else "warp"))}
+    if hard:
+        # non-finite cells (silent frames) or magnitudes next to the float32 range: police only
+        del case["cells"]
+        if rng.random() < 0.65:
+            case["bits"] = gen_bits(rng, N, T, Fd, nonfinite=rng.choice([0.15, 0.5, 1.0]))
+        else:
+            big = [float_bits(x) for x in (1e38, -1e38, 9e37, 1e30, -1e30, 0.0, 1.0)]
+            case["bits"] = [[[rng.choice(big) for _ in range(Fd)] for _ in range(T)] for _ in range(N)]
+        case["police_only"] = True
+    same_rows(rng, case)
+    case["alts"] = pick_alts(rng, [a for a in APPLY_ALTS if a not in ("alias", "f64", "f16")], 2)
+    return case
 
 
-def gen_grid(rng, near_end=False):
+def gen_grid(rng, near_end=False, left_small=False):
     N = rng.randint(1, 3)
-    T = rng.randint(1, 12)
-    lens = [rng.randint(1, T) for _ in range(N)]
+    T = rng.randint(3 if left_small else 1, 12)
+    lens = [rng.randint(3 if left_small else 1, T) for _ in range(N)]
     maxlen = rng.random() < 0.8
-    src, flow = gen_warpvals(rng, N, lens, near_end)
-    return {"kind": "grid", "T": T, "lengths": lens, "src": src, "flow": flow, "maxlen": maxlen, "order": 1,
-            "stream": "grid-near-end" if near_end else "grid"}
+    src, flow = gen_warpvals(rng, N, lens, near_end, left_small)
+    c = rng.random()
+    if c < 0.15 and not near_end and not left_small:
+        # whole-frame sources and shifts (the documented example passes integer tensors)
+        src = [float(rng.randint(0, ln - 1)) for ln in lens]
+        flow = [float(rng.randint(-1, 1)) for _ in lens]
+    elif c < 0.3 and N > 1:
+        src, flow, lens = [src[0]] * N, [flow[0]] * N, [lens[0]] * N
+    alts = pick_alts(rng, GRID_ALTS, 3)
+    return {"kind": "grid", "T": T, "lengths": lens, "src": src, "flow": flow, "maxlen": maxlen, "order": 1, "alts": alts,
+            "stream": "grid-near-end" if near_end else ("grid-left-small" if left_small else "grid")}
 
 
-def gen_seed(rng):
+def gen_seed(rng, pool=None):
     N, T, Fd = rng.randint(1, 3), rng.randint(1, 10), rng.randint(1, 5)
     cfg = gen_cfg(rng, small=True)
-    return {"kind": "seed", "api": rng.choice(["functional", "module"]), "N": N, "T": T, "F": Fd,
+    alts = pick_alts(rng, SEED_ALTS, 3)
+    scripted_cfg = None
+    if pool and any(a in ("script_mod", "script_eval") for a in alts):
+        # scripting a module costs ~0.1 s per configuration: the scripted variants share a few configurations per run
+        scripted_cfg = rng.choice(pool)
+        cfg = dict(scripted_cfg[0])
+    case = {"kind": "seed", "api": rng.choice(["functional", "module"]), "N": N, "T": T, "F": Fd,
             "lengths": gen_lengths(rng, N, T), "cfg": cfg, "order": rng.choice([1, 1, 2, 3]),
             "seed": rng.randint(0, 2 ** 31 - 1), "cells": gen_cells(rng, N, T, Fd), "stream": "seed"}
+    if rng.random() < 0.2:
+        del case["cells"]
+        case["bits"] = gen_bits(rng, N, T, Fd, nonfinite=rng.choice([0.15, 0.5, 1.0]))
+        case["police_only"] = True
+    if scripted_cfg is not None:
+        case["order"] = scripted_cfg[1]
+    case["alts"] = alts
+    return case
 
 
 def gen_cases(chk):
@@ -856,12 +1262,19 @@ def gen_cases(chk):
         cases.append(gen_grid(rng))
     for _ in range(40 * k):
         cases.append(gen_grid(rng, near_end=True))
+    for _ in range(40 * k):
+        cases.append(gen_grid(rng, left_small=True))
     for _ in range(160 * k):
         cases.append(gen_warp(rng))
     for _ in range(30 * k):
         cases.append(gen_warp(rng, near_end=True))
+    for _ in range(40 * k):
+        cases.append(gen_warp(rng, left_small=True))
+    for _ in range(60 * k):
+        cases.append(gen_warp(rng, hard=True))
+    pool = [(gen_cfg(rng, small=True), rng.choice([1, 1, 2, 3])) for _ in range(6 if not th else 16)]
     for _ in range(150 * k):
-        cases.append(gen_seed(rng))
+        cases.append(gen_seed(rng, pool))
     return cases
 
 
@@ -959,6 +1372,10 @@ def run(chk, cases=None):
             chk.count(f"order={c['order']}")
         if "api" in c:
             chk.count("api=" + c["api"])
+        for a_ in c.get("alts") or []:
+            chk.count("alt=" + a_)
+        if c.get("police_only"):
+            chk.count("police_only(non-finite or huge cells under a warp)")
         chk.count("outcome=" + ("exception" if "err" in res else ("warped" if res.get("warped") else "ok")))
         for cl_ in res.get("spec_fail", []):
             pyfails.append((i, cl_, None))
